@@ -88,7 +88,7 @@ M = [
  ("x01_decode_with_replacement", "src/encoding.rs", """    encoding
         .decode_without_bom_handling_and_without_replacement(bytes)
         .ok_or(EncodingError::Other(encoding))""", """    Ok(encoding.decode_without_bom_handling(bytes).0)""", "C17"),
- ("s01_stream_consume_offset", "src/reader/mod.rs", "        self.inner.consume(amt);\n        *self.offset += amt as u64;\n", "        self.inner.consume(amt);\n", "C02 C03"),
+ ("s01_stream_consume_offset", "src/reader/mod.rs", "        self.inner.consume(amt);\n        *self.offset += amt as u64;\n", "        self.inner.consume(amt);\n", "C02"),
  ("s02_async_stream_consume_offset", "src/reader/async_tokio.rs", "        this.inner.consume(amt);\n        *this.offset += amt as u64;\n", "        this.inner.consume(amt);\n", "C02 C03"),
  ("w05_write_indent_no_newline", "src/writer.rs", "        if let Some(ref i) = self.indent {\n            self.writer.write_all(b\"\\n\")?;\n            self.writer.write_all(i.current())?;\n        }\n        Ok(())\n    }\n\n    /// Write an arbitrary serializable type", "        if let Some(ref i) = self.indent {\n            self.writer.write_all(i.current())?;\n        }\n        Ok(())\n    }\n\n    /// Write an arbitrary serializable type", "C19"),
  ("w07_write_serializable_root", "src/writer.rs", "Serializer::with_root(&mut fmt, Some(tag_name))?;", "Serializer::with_root(&mut fmt, None)?;", "C13"),
